@@ -68,6 +68,12 @@ ENGINES = [
         "kind_free_text": "TLC checks the precedence/grammar model and enumerates layer stacks and option strings with expected outcomes; all are replayed into halmos' configuration code",
     },
     {
+        "name": "bytecode-model",
+        "path": "spec/Bytecode.tla spec/BytecodeRun.tla spec/MC_Bytecode_*.cfg harness/bytecode_replay.py checks/c19.py",
+        "serves_properties": ["C19"],
+        "kind_free_text": "TLC enumerates codes (concrete and with symbolic bytes), checks the decoding invariants and prints the expected decoding; the records are replayed into halmos' Contract class and jump programs into SEVM.run",
+    },
+    {
         "name": "word-tables",
         "path": "spec/EvmWord.tla spec/EvmWordNat.tla spec/WordRefine.tla spec/WordTable.tla harness/wordops.py harness/progs_ops.py checks/c06.py",
         "serves_properties": ["C06"],
@@ -180,6 +186,13 @@ CHECKS: dict[str, dict] = {
         "text": "Config.tla specifies precedence resolution (two equivalent forms), solver-command resolution, the grammars of the structured options with strict/tolerant recognisers, Parse/Unparse and annotation scoping; TLC checks 11 invariants (ResolveIsHighest, LayeringMonotone, RecentWinsAmongEquals, SolverCommandPrecedence, RoundTrip, ScopeLocal ...) and enumerates all stacks of <= 4 (quick) / 5 (thorough) layers over 5 sources and all strings up to length 5 / 6 over the option alphabets with their expected classification; each case is replayed through with_overrides / value_with_source / attribute reads / resolved_solver_command / argparse / TOML / with_devdoc / with_natspec / halmos._main and compared. Eight negative controls (wrong comparison in the resolver, silently defaulting parser, leaking annotation, lossy unparse ...) must be rejected in every run.",
         "note": "Inputs the documentation does not settle (blanks, empty items, signs, digit groups, nan/inf, exponents ...) are classified lenient and accept either outcome. A bare timeout number is read as milliseconds (code comment + in-repo annotations).",
         "design_ref": "5 C18, A.5",
+    },
+    "C19": {
+        "engine": "bytecode-model",
+        "technique": "Bytecode.tla / BytecodeRun.tla: TLC enumerates every code over a class-preserving alphabet (with symbolic bytes) and checks 11 decoding invariants; the tabulated decoding is replayed into halmos' Contract in every representation and jump programs are executed against Evm.tla",
+        "text": "TLC enumerates all byte strings up to length 4 (quick) / 6 (thorough) over an 8-byte alphabet that preserves every decoding class plus a symbolic byte, every concrete-prefix/symbolic-suffix split and every placement of symbolic bytes up to length 4/5, and checks on each code that boundaries form one NextPc chain from 0, jump destinations are exactly the 5b bytes at boundaries, operands are zero-padded slices, STOP lies beyond the end, slices read zero past the end and symbolic codes abstract all their instances. Each record (boundaries, next_pc, operands, jumpdests, slices) is replayed into the real Contract built from bytes, hex, per-byte symbols, wide symbols and a single z3 Concat term; random codes up to 4 KiB are decoded by both; jump programs (JUMP/JUMPI with concrete and symbolic condition into PUSH data, genuine JUMPDESTs, truncated PUSH32, far targets) are judged against TLC's ValidJumpdests and their whole execution against Evm.tla. Negative controls (forgetting PUSH data, no zero padding, 11 mutated expectation records) must be rejected.",
+        "note": "Above the first symbolic opcode the instruction length is unknown: halmos' jump destinations are only bounded there (5b or symbolic bytes inside the code). decode_instruction of a symbolic opcode may raise NotConcreteError.",
+        "design_ref": "5 C19",
     },
     "C20": {
         "engine": "testrun-model",
